@@ -287,4 +287,56 @@ pub broadcast axiom fn axiom_str_cmp_trans(a: Seq<char>, b: Seq<char>, c: Seq<ch
     requires #[trigger] str_cmp(a, b) is Less, #[trigger] str_cmp(b, c) is Less
     ensures str_cmp(a, c) is Less;
 
+// ---- further char / str contracts (not used by the current tree; present so that a plausible edit of the lifted code
+// ---- lands in a verdict instead of "unsupported std function") ----
+pub uninterp spec fn spec_is_lowercase(c: char) -> bool;
+pub uninterp spec fn spec_is_alphabetic(c: char) -> bool;
+pub assume_specification[ char::is_ascii_uppercase ](c: &char) -> (b: bool) ensures b == is_ascii_upper(*c);
+pub assume_specification[ char::is_ascii_lowercase ](c: &char) -> (b: bool) ensures b == is_ascii_lower(*c);
+pub assume_specification[ char::is_ascii_digit ](c: &char) -> (b: bool) ensures b == is_ascii_digit(*c);
+pub assume_specification[ char::is_ascii_alphabetic ](c: &char) -> (b: bool) ensures b == (is_ascii_upper(*c) || is_ascii_lower(*c));
+pub assume_specification[ char::is_ascii_alphanumeric ](c: &char) -> (b: bool) ensures b == (is_ascii_upper(*c) || is_ascii_lower(*c) || is_ascii_digit(*c));
+pub assume_specification[ char::is_ascii ](c: &char) -> (b: bool) ensures b == is_ascii(*c);
+pub assume_specification[ char::is_lowercase ](c: char) -> (b: bool) ensures b == spec_is_lowercase(c);
+pub assume_specification[ char::is_alphabetic ](c: char) -> (b: bool) ensures b == spec_is_alphabetic(c);
+pub broadcast axiom fn axiom_is_lowercase_ascii(c: char)
+    requires is_ascii(c)
+    ensures #[trigger] spec_is_lowercase(c) == is_ascii_lower(c);
+pub broadcast axiom fn axiom_is_alphabetic_ascii(c: char)
+    requires is_ascii(c)
+    ensures #[trigger] spec_is_alphabetic(c) == (is_ascii_upper(c) || is_ascii_lower(c));
+
+pub open spec fn trim_end_str(s: Seq<char>, p: Seq<char>) -> Seq<char>
+    decreases s.len()
+{
+    if p.len() > 0 && ends_with(s, p) { trim_end_str(s.take(s.len() - p.len()), p) } else { s }
+}
+pub assume_specification<'a, P: core::str::pattern::Pattern>[ str::trim_end_matches::<P> ](s: &'a str, p: P) -> (r: &'a str)
+    where for<'b> <P as core::str::pattern::Pattern>::Searcher<'b>: core::str::pattern::ReverseSearcher<'b>,
+    ensures
+        pat_str_of(p) is Some ==> r@ == trim_end_str(s@, pat_str_of(p)->0),
+        pat_char_of(p) is Some ==> r@ == trim_end_char(s@, pat_char_of(p)->0);
+pub assume_specification<'a, P: core::str::pattern::Pattern>[ str::strip_prefix::<P> ](s: &'a str, prefix: P) -> (r: Option<&'a str>)
+    ensures pat_str_of(prefix) is Some ==> (match r {
+        Option::Some(t) => starts_with(s@, pat_str_of(prefix)->0) && t@ == s@.skip(pat_str_of(prefix)->0.len() as int),
+        Option::None => !starts_with(s@, pat_str_of(prefix)->0),
+    });
+
+// more shims for provided Iterator methods
+#[verifier::external_body]
+pub fn vx_iter_nth<I: Iterator>(it: I, n: usize) -> (r: Option<I::Item>)
+    ensures it.obeys_prophetic_iter_laws() ==> ((r is Some) == (n < it.remaining().len())) && (r is Some ==> r->0 == it.remaining()[n as int])
+{ let mut it = it; it.nth(n) }
+#[verifier::external_body]
+pub fn vx_iter_count<I: Iterator>(it: I) -> (r: usize)
+    ensures it.obeys_prophetic_iter_laws() ==> r == it.remaining().len()
+{ it.count() }
+#[verifier::external_body]
+pub fn vx_iter_any<I: Iterator, F: FnMut(I::Item) -> bool>(it: I, f: F) -> (r: bool)
+    requires forall|x: I::Item| call_requires(f, (x,))
+    ensures
+        it.obeys_prophetic_iter_laws() && r ==> exists|k: int| 0 <= k < it.remaining().len() && call_ensures(f, (#[trigger] it.remaining()[k],), true),
+        it.obeys_prophetic_iter_laws() && !r ==> forall|k: int| 0 <= k < it.remaining().len() ==> call_ensures(f, (#[trigger] it.remaining()[k],), false),
+{ let mut it = it; it.any(f) }
+
 } // verus!
